@@ -377,6 +377,8 @@ impl ExecutableContent for If {
             .execute_condition(&self.condition)
             .unwrap_or_else(|e| {
                 warn!("Condition {} can't be evaluated. {}", self.condition, e);
+                // W3C 5.9.1: the condition counts as false and error.execution is raised.
+                datamodel.internal_error_execution();
                 false
             });
         if r {
